@@ -889,6 +889,9 @@ def gen_shaped(rng, big, cs_):
     for _ in range(20 if big else 2):
         for name, t in shaped_txs(rng, [], bad_keys(rng), big):
             cs_.append(Case('tx_shp_key', 'tx shp ' + o_ser(t).hex()))
+    # the same transactions assembled through the API (add_input / add_output with the scripts given as bytes)
+    for name, t in shaped_txs(rng, [], keys, True)[::(1 if big else 5)]:
+        cs_.append(Case('api_shp', 'api ' + tok_tx(t)))
     # valid data in the same templates (controls)
     for name, t in shaped_txs(rng, [der_sig(rng)], [G1, G3, GU], True):
         cs_.append(Case('tx_shp_ok', 'tx shp ' + o_ser(t).hex()))
@@ -1035,6 +1038,15 @@ def sess_block(rng, n):
         while not txs or tx_classes(txs[0]):
             txs = [coinbase_tx(rng, rng.random() < 0.3)]
         txs += [small_tx(rng) for _ in range(n - 1)]
+        for j in range(1, n):
+            # transactions with random-byte scripts outside every recorded class (strict mode refuses most of them: the
+            # block readers must not care)
+            if rng.random() < 0.25:
+                for _ in range(20):
+                    t = rnd_tx(rng, 'non')
+                    if not tx_classes(t) and len(o_ser(t)) < 400:
+                        txs[j] = t
+                        break
         raw = rng.choice([1, 2, 0x20000000]).to_bytes(4, 'little') + rnd(rng, 32) + rnd(rng, 32) + \
             rng.getrandbits(32).to_bytes(4, 'little') + (0x1d00ffff).to_bytes(4, 'little') + \
             rng.getrandbits(32).to_bytes(4, 'little') + cs(n) + b''.join(o_ser(t) for t in txs)
@@ -1153,6 +1165,15 @@ def prop_check(c, out):
             return 'independent parser rejects the bytes of an API-built transaction'
         if tok_tx(t) != fields:
             return 'independent parser reads fields that differ from the object that produced the bytes'
+        # ... and from the fields that were GIVEN to the API (the object's own report could be wrong the same way as
+        # its bytes).  The only documented normalisation: version 0 means 1, and version 1 becomes 2 as soon as an
+        # input carries a relative-locktime sequence (BIP68).
+        want = tx_of_tok(tk[1])
+        v = 1 if want[0] == 0 else want[0]
+        if v == 1 and any(0 < i[3] < 0x80000000 for i in want[1]):
+            v = 2
+        if tok_tx(t) != tok_tx((v,) + tuple(want[1:])):
+            return 'independent parser reads fields that differ from the fields given to the API'
         return None
     if tk[0] == 'target':
         bits = int(tk[1])
@@ -1255,7 +1276,7 @@ def same(c, io, mo):
         m = mo.split(' P:')[0]
         if _norm(io) == m:
             return True
-        if io.startswith('ERR') and (blind or c.kind == 'api_non'):
+        if io.startswith('ERR') and (blind or c.kind == 'api_non') and c.kind != 'api_shp':
             return True                       # constructor refuses what its script layer does not understand
         return blind                          # the byte-level model does not predict what Input() re-assembles
     if tk[0] == 'target':
